@@ -1,2 +1,161 @@
+(* Main theorems of the serverhostile domain (C11), assembled from Inv.v / Handlers.v / Step.v. *)
+From Coq Require Import ZifyBool ZifyNat ZifyN.
 From GVL Require Import NList Wire.
-From GV_serverhostile Require Import Model.
+From GV_serverhostile Require Import Model Basics Inv FindFree Handlers Step.
+Open Scope N_scope.
+
+(* ---- no input drives a step to Panic ---- *)
+Theorem hostile_no_panic g evs :
+  0 < c_nmedias g -> exists s os, run_events g srv0 evs = Some (s, os) /\ Inv s /\ length os = length evs.
+Proof. intros H. apply run_events_ok; [apply Inv_srv0 | exact H]. Qed.
+
+Theorem hostile_no_panic_from g s evs :
+  Inv s -> 0 < c_nmedias g -> exists s' os, run_events g s evs = Some (s', os) /\ Inv s' /\ length os = length evs.
+Proof. intros. apply run_events_ok; assumption. Qed.
+
+(* ---- every request is answered exactly once; everything else closes the connection or is a frame
+        of a running TCP session ---- *)
+Theorem always_answers_or_closes g s c e s' o :
+  Inv s -> In c (v_conns s) -> 0 < c_nmedias g -> conn_event g s c e = Some (s', o) -> answered c e s s' o.
+Proof.
+  intros I Hc Hnm H. destruct (conn_event_ok g s c e I Hc Hnm) as (s2 & o2 & E & _ & _ & A).
+  rewrite E in H. inv H. exact A.
+Qed.
+
+(* ---- validation before use: what an accepted SETUP guarantees, and the statuses of a refused one ---- *)
+Theorem validate_setup_sound g c ss r :
+  match validate_setup g c ss r with
+  | SetupAccept th p path trk =>
+      (s_state ss = SInitial \/ s_state ss = SPrePlay \/ s_state ss = SPreRecord) /\
+      is_supported g c th = true /\ p = proto_of th /\
+      (forall old, s_tr ss = Some old -> old = (p, t_secure th)) /\
+      (p = SPUDP -> t_cports th <> None) /\
+      (playing ss = false -> p <> SPMcast)
+  | SetupReject st err => (st = 400 /\ err = true) \/ (st = 461 /\ err = false)
+  end.
+Proof.
+  destruct (validate_setup g c ss r) as [st err|th p path trk] eqn:V.
+  - unfold validate_setup in V. repeat dmatch; try discriminate; inv V; tauto.
+  - apply validate_setup_accept in V. exact V.
+Qed.
+
+(* an accepted transport is one the configuration can serve *)
+Theorem supported_transport_needs g c th :
+  is_supported g c th = true ->
+  (t_secure th = true -> c_tls g = true) /\
+  (t_proto th = PUDP -> c_tunnel c = false /\ (t_mcast th = true -> c_mcast g = true) /\ (t_mcast th = false -> c_udp g = true)
+                        /\ (c_tls g = true -> t_secure th = true)).
+Proof.
+  unfold is_supported. destruct (t_proto th), (t_mcast th), (t_secure th), (c_tls g), (c_tunnel c), (c_mcast g), (c_udp g);
+    cbn; intros H; try discriminate; repeat split; intros; try congruence.
+Qed.
+
+(* ---- a session that ends leaves the tables ---- *)
+Lemma reader_set_inactive_shape s ss s' :
+  reader_set_inactive s ss = Some s' ->
+  v_conns s' = v_conns s /\ v_sess s' = v_sess s /\ v_readers s' = v_readers s /\
+  (forall x, In x (v_active s') -> In x (v_active s) /\ (is_mcast ss = false -> x <> s_id ss)).
+Proof.
+  unfold reader_set_inactive, is_mcast. intros H.
+  destruct (s_tr ss) as [[[] b]|]; try discriminate;
+    try (destruct (v_mwriters s); [|discriminate]); inv H; cbn [v_conns v_sess v_readers v_active];
+    repeat split; try reflexivity; try tauto; try (intros Hx; apply In_nremove in Hx; tauto); try discriminate;
+    try (apply In_nremove in H; tauto); try assumption.
+Qed.
+
+Lemma reader_remove_shape s ss s' :
+  reader_remove s ss = Some s' ->
+  v_conns s' = v_conns s /\ v_sess s' = v_sess s /\ v_active s' = v_active s /\
+  (forall x, In x (v_readers s') -> In x (v_readers s) /\ x <> s_id ss).
+Proof.
+  unfold reader_remove. intros H.
+  destruct (s_tr ss) as [[[] b]|]; try discriminate; repeat dmatch; try discriminate; inv H;
+    cbn [v_conns v_sess v_readers v_active]; repeat split; try reflexivity;
+    try (apply In_nremove in H; tauto); try (intros Hx; apply In_nremove in Hx; tauto).
+Qed.
+
+Lemma medias_stop_shape s ss s' :
+  medias_stop s ss = Some s' ->
+  v_conns s' = v_conns s /\ v_sess s' = v_sess s /\ v_active s' = v_active s /\ v_readers s' = v_readers s.
+Proof.
+  unfold medias_stop. intros H. repeat dmatch; try discriminate; inv H; cbn [v_conns v_sess v_readers v_active]; tauto.
+Qed.
+
+Theorem end_session_leaves s sid ss s' :
+  find_sess sid (v_sess s) = Some ss -> end_session s sid = Some s' ->
+  find_sess sid (v_sess s') = None /\
+  (forall c, In c (v_conns s') -> ~ In (c_id c) (s_conns ss)) /\
+  (s_stream ss = true -> ~ In sid (v_readers s') /\ (is_mcast ss = false -> ~ In sid (v_active s'))).
+Proof.
+  intros F E. unfold end_session in E. rewrite F in E. apply find_sess_In in F. destruct F as [HI Hid]. subst sid.
+  match type of E with context [filter ?f (v_conns s)] => set (fl := f) in * end.
+  match type of E with context [mkSrv (filter fl (v_conns s)) ?a ?b ?c ?d ?e ?f ?g ?h] =>
+    set (s1 := mkSrv (filter fl (v_conns s)) a b c d e f g h) in * end.
+  destruct (s_stream ss) eqn:Es.
+  - destruct (reader_set_inactive s1 ss) as [s2|] eqn:E1; [|discriminate].
+    destruct (reader_remove s2 ss) as [s3|] eqn:E2; [|discriminate].
+    destruct (medias_stop s3 ss) as [s4|] eqn:E3; [|discriminate]. inv E.
+    apply reader_set_inactive_shape in E1. apply reader_remove_shape in E2. apply medias_stop_shape in E3.
+    destruct E1 as (A1 & A2 & A3 & A4), E2 as (B1 & B2 & B3 & B4), E3 as (C1 & C2 & C3 & C4).
+    cbn [v_sess v_conns v_readers v_active]. split; [apply find_del_sess_same|]. split.
+    + intros c Hc. rewrite C1, B1, A1 in Hc. cbn [v_conns s1] in Hc. apply filter_In in Hc. destruct Hc as [_ Hc].
+      subst fl. cbn in Hc. apply Bool.negb_true_iff, nmem_false in Hc. exact Hc.
+    + intros _. split.
+      * rewrite C4. intros Hr. apply B4 in Hr. tauto.
+      * intros Hm. rewrite C3, B3. intros Ha. apply A4 in Ha. tauto.
+  - destruct (medias_stop s1 ss) as [s4|] eqn:E3; [|discriminate]. inv E.
+    apply medias_stop_shape in E3. destruct E3 as (C1 & C2 & C3 & C4).
+    cbn [v_sess v_conns v_readers v_active]. split; [apply find_del_sess_same|]. split; [|discriminate].
+    intros c Hc. rewrite C1 in Hc. cbn [v_conns s1] in Hc. apply filter_In in Hc. destruct Hc as [_ Hc].
+    subst fl. cbn in Hc. apply Bool.negb_true_iff, nmem_false in Hc. exact Hc.
+Qed.
+
+(* ---- the property is false of the unchanged code: two witnesses ---- *)
+Definition cfg_all : cfg := mkCfg true true true true true true true true true false false 2.
+
+Definition req0 (m : method) : req :=
+  mkReq m true true None 1 true true CTMissing None None false None None true.
+
+Definition w_announce : req :=
+  mkReq MAnnounce true true None 1 true true CTSdp (Some 1) None false None None true.
+Definition w_setup_rec (a b : N) : req :=
+  mkReq MSetup true true None 1 true true CTMissing None
+        (Some [mkTr PUDP false false (Some (a, b)) None (Some TMRecord)]) false None (Some 0) true.
+Definition w_record (ok : bool) : req :=
+  mkReq MRecord true true (Some 2) 1 true true CTMissing None None false None None ok.
+
+(* F-C11-2: RECORD over UDP whose firewall-opening write fails: the connection is closed, the session
+   stays in Server.sessions in state RECORD and its timer is not armed, so nothing ever ends it *)
+Theorem resources_released_refuted :
+  exists evs s os ss,
+    run_events cfg_all srv0 evs = Some (s, os) /\
+    v_conns s = [] /\ v_sess s = [ss] /\ s_state ss = SRecord /\ s_timer ss = false /\
+    step cfg_all s (STimeout (s_id ss)) = Some (s, OIgnored).
+Proof.
+  exists [SNew 1 false; SConn 1 (EReq w_announce); SConn 1 (EReq (w_setup_rec 0 1)); SConn 1 (EReq (w_record false))].
+  eexists. eexists. eexists. vm_compute. repeat split; reflexivity.
+Qed.
+
+(* a second session from the same IP that is set up with the client ports of a recording session takes
+   over its UDP registrations and removes them when it leaves: a step on one connection changes what
+   another connection's session receives *)
+Definition w_record_sid (sid : N) : req :=
+  mkReq MRecord true true (Some sid) 1 true true CTMissing None None false None None true.
+Definition w_teardown_sid (sid : N) : req :=
+  mkReq MTeardown true true (Some sid) 1 true true CTMissing None None false None None true.
+
+Theorem others_unaffected_refuted :
+  exists evs_victim evs_hostile s1 os1 s2 os2 victim,
+    run_events cfg_all srv0 evs_victim = Some (s1, os1) /\
+    (forall e, In e evs_hostile -> match e with SConn c _ => c = 3 | SNew _ _ => True | _ => False end) /\
+    run_events cfg_all s1 evs_hostile = Some (s2, os2) /\
+    find_sess 2 (v_sess s1) = Some victim /\ find_sess 2 (v_sess s2) = Some victim /\ s_state victim = SRecord /\
+    In ((1, 5000), 2) (v_rtp s1) /\ v_rtp s2 = [].
+Proof.
+  exists [SNew 1 false; SConn 1 (EReq w_announce); SConn 1 (EReq (w_setup_rec 5000 5001)); SConn 1 (EReq (w_record_sid 2))].
+  exists [SNew 1 false; SConn 3 (EReq w_announce); SConn 3 (EReq (w_setup_rec 5000 5001)); SConn 3 (EReq (w_record_sid 4));
+          SConn 3 (EReq (w_teardown_sid 4))].
+  do 5 eexists. split; [vm_compute; reflexivity|]. split.
+  { intros e He. cbn in He. repeat (destruct He as [<-|He]; [cbn; tauto|]). destruct He. }
+  split; [vm_compute; reflexivity|]. vm_compute. repeat split; try reflexivity. left. reflexivity.
+Qed.
